@@ -1,6 +1,6 @@
 /-
-  Lemmas/TextEdec — edecimal `parse` followed by `operator<<` on a fresh object returns a canonical decimal text
-  unchanged.
+  Lemmas/TextEdec — edecimal `parse` followed by `operator<<` (as repaired: sign flag reset, `unpad()`, unsigned
+  zero) prints the exact decimal expansion of the value denoted by the text.
 -/
 import UVerifProofs.Lemmas.TextDecimal
 
@@ -32,42 +32,147 @@ theorem dropSigns_digits (l : List Char) (hne : l ≠ []) (h : ∀ c ∈ l, isDi
     have h2 : c ≠ '+' := by intro e; subst e; revert hc; decide
     simp [dropSigns, h1, h2]
 
-/-- on a freshly constructed edecimal, `parse` of the exact decimal expansion of `x` prints back the same text. -/
-theorem edecParsePrint_canonical (x : Int) : edecParsePrint false (intToDec x) = some (intToDec x) := by
-  have hdig := natToDec_allDigit x.natAbs
-  have hne := natToDec_ne_nil x.natAbs
-  have hall : allB isDigit (natToDec x.natAbs) = true := by
-    have : ∀ (l : List Char), (∀ c ∈ l, isDigit c = true) → allB isDigit l = true := by
-      intro l; induction l with
-      | nil => intro _; rfl
-      | cons c cs ih =>
-        intro h
-        simp only [allB, h c (List.mem_cons_self ..), Bool.true_and]
-        exact ih (fun d hd => h d (List.mem_cons_of_mem _ hd))
-    exact this _ hdig
-  have hemp : (natToDec x.natAbs).isEmpty = false := by
-    cases h : natToDec x.natAbs with
+theorem allB_isDigit_of (l : List Char) (h : ∀ c ∈ l, isDigit c = true) : allB isDigit l = true := by
+  induction l with
+  | nil => rfl
+  | cons c cs ih =>
+    simp only [allB, h c (List.mem_cons_self ..), Bool.true_and]
+    exact ih (fun d hd => h d (List.mem_cons_of_mem _ hd))
+
+/-- `unpad()` leaves a canonical digit list alone … -/
+theorem edecUnpadMsd_natDigits (m : Nat) : edecUnpadMsd (natDigits m) = natDigits m := by
+  by_cases h0 : m = 0
+  · subst h0; decide
+  · have hhead := natDigits_head m h0
+    cases hd : natDigits m with
+    | nil => rfl
+    | cons d ds =>
+      rw [hd] at hhead
+      have hd0 : d ≠ 0 := by simpa using hhead
+      cases ds with
+      | nil => rfl
+      | cons e es => simp [edecUnpadMsd, hd0]
+
+/-- … and strips any number of leading zeros in front of it. -/
+theorem edecUnpadMsd_padded (m : Nat) : ∀ k, edecUnpadMsd (List.replicate k 0 ++ natDigits m) = natDigits m
+  | 0 => by simpa using edecUnpadMsd_natDigits m
+  | k + 1 => by
+    have ih := edecUnpadMsd_padded m k
+    have hne : List.replicate k 0 ++ natDigits m ≠ [] := by
+      intro h
+      exact natDigits_ne_nil m (List.append_eq_nil_iff.mp h).2
+    cases hl : List.replicate k 0 ++ natDigits m with
+    | nil => exact absurd hl hne
+    | cons e es =>
+      rw [hl] at ih
+      simp only [List.replicate_succ, List.cons_append, hl, edecUnpadMsd, if_true]
+      exact ih
+
+theorem natDigits_all_zero (m : Nat) : (natDigits m).all (· == 0) = decide (m = 0) := by
+  by_cases h0 : m = 0
+  · subst h0; decide
+  · have hhead := natDigits_head m h0
+    cases hd : natDigits m with
+    | nil => exact absurd hd (natDigits_ne_nil m)
+    | cons d ds =>
+      rw [hd] at hhead
+      have hd0 : d ≠ 0 := by simpa using hhead
+      simp [hd0, h0]
+
+theorem map_digitVal_padded (k m : Nat) :
+    (List.replicate k '0' ++ natToDec m).map (fun c => if isDigit c then digitVal c else 0)
+      = List.replicate k 0 ++ natDigits m := by
+  rw [List.map_append, List.map_replicate]
+  congr 1
+  unfold natToDec
+  rw [List.map_map]
+  have : ∀ (l : List Nat), (∀ d ∈ l, d < 10) →
+      l.map ((fun c => if isDigit c then digitVal c else 0) ∘ digitChar) = l := by
+    intro l; induction l with
+    | nil => intro _; rfl
+    | cons d ds ih =>
+      intro h
+      have hd := h d (List.mem_cons_self ..)
+      rw [List.map_cons, ih (fun e he => h e (List.mem_cons_of_mem _ he))]
+      simp only [Function.comp, isDigit_digitChar d hd, if_true, digitVal_digitChar d hd]
+  exact this _ (natDigits_allDigits m)
+
+/-- **edecimal parse → print** of a decimal text with an optional sign and ANY number of redundant leading zeros,
+    into an object whose sign flag was `neg0`: the exact decimal expansion of the value denoted (no padding, no
+    negative zero, the old flag forgotten). -/
+theorem edecParsePrint_text (neg0 neg plus : Bool) (k m : Nat) :
+    edecParsePrint neg0 ((if neg then ['-'] else if plus then ['+'] else []) ++ (List.replicate k '0' ++ natToDec m))
+      = some (intToDec (if neg then -(m : Int) else (m : Int))) := by
+  set D := List.replicate k '0' ++ natToDec m with hD
+  have hdig : ∀ c ∈ D, isDigit c = true := by
+    intro c hc
+    rcases List.mem_append.mp hc with h | h
+    · rw [List.eq_of_mem_replicate h]; decide
+    · exact natToDec_allDigit m c h
+  have hne : D ≠ [] := by
+    intro h
+    exact natToDec_ne_nil m (List.append_eq_nil_iff.mp h).2
+  have hall := allB_isDigit_of D hdig
+  have hemp : D.isEmpty = false := by
+    cases h : D with
     | nil => exact absurd h hne
     | cons _ _ => rfl
-  unfold edecParsePrint intToDec
-  by_cases hx : x < 0
-  · simp only [hx, if_true, List.cons_append, List.nil_append]
-    have hds : dropSigns ('-' :: natToDec x.natAbs) = natToDec x.natAbs := by
-      simp [dropSigns, dropSigns_digits _ hne hdig]
-    simp [hds, hemp, hall, map_digit_id _ hdig]
-  · simp only [hx, if_false, List.nil_append]
-    rw [dropSigns_digits _ hne hdig]
-    simp only [hemp, hall, Bool.not_true, Bool.or_self, Bool.false_eq_true, if_false]
-    cases hd : natToDec x.natAbs with
-    | nil => exact absurd hd hne
-    | cons c cs =>
-      have hc : isDigit c = true := hdig c (by rw [hd]; exact List.mem_cons_self ..)
-      have h1 : c ≠ '-' := by intro e; subst e; revert hc; decide
-      have h2 : c ≠ '+' := by intro e; subst e; revert hc; decide
-      have hmap := map_digit_id (c :: cs) (by rw [← hd]; exact hdig)
-      split
-      · rename_i heq; injection heq with e _; exact absurd e h1
-      · rename_i heq; injection heq with e _; exact absurd e h2
-      · simp [hmap]
+  have hmap := map_digitVal_padded k m
+  rw [← hD] at hmap
+  have hunpad := edecUnpadMsd_padded m k
+  have hzero := natDigits_all_zero m
+  -- the printed result, whatever the flag decided by the sign character
+  have hout : ∀ flag : Bool,
+      ((if (if (natDigits m).all (· == 0) = true then false else flag) = true then ['-'] else []) ++ (natDigits m).map digitChar)
+        = intToDec (if flag then -(m : Int) else (m : Int)) := by
+    intro flag
+    rw [hzero]
+    unfold intToDec
+    by_cases h0 : m = 0
+    · subst h0; cases flag <;> simp [natToDec]
+    · have hpos : 0 < m := Nat.pos_of_ne_zero h0
+      cases flag
+      · simp [h0, natToDec]
+      · simp [h0, hpos, natToDec]
+  unfold edecParsePrint
+  cases neg with
+  | true =>
+    simp only [if_true, List.cons_append, List.nil_append]
+    have hds : dropSigns ('-' :: D) = D := by simp [dropSigns, dropSigns_digits _ hne hdig]
+    simp only [hds, hemp, hall, Bool.not_true, Bool.or_self, Bool.false_eq_true, if_false, hmap, hunpad]
+    exact congrArg some (hout true)
+  | false =>
+    cases plus with
+    | true =>
+      simp only [Bool.false_eq_true, if_false, if_true, List.cons_append, List.nil_append]
+      have hds : dropSigns ('+' :: D) = D := by simp [dropSigns, dropSigns_digits _ hne hdig]
+      simp only [hds, hemp, hall, Bool.not_true, Bool.or_self, Bool.false_eq_true, if_false, hmap, hunpad]
+      exact congrArg some (hout false)
+    | false =>
+      simp only [Bool.false_eq_true, if_false, List.nil_append]
+      rw [dropSigns_digits _ hne hdig]
+      simp only [hemp, hall, Bool.not_true, Bool.or_self, Bool.false_eq_true, if_false]
+      cases hd : D with
+      | nil => exact absurd hd hne
+      | cons c cs =>
+        have hc : isDigit c = true := hdig c (by rw [hd]; exact List.mem_cons_self ..)
+        have h1 : c ≠ '-' := by intro e; subst e; revert hc; decide
+        have h2 : c ≠ '+' := by intro e; subst e; revert hc; decide
+        rw [hd] at hmap
+        split
+        · rename_i heq; injection heq with e _; exact absurd e h1
+        · rename_i heq; injection heq with e _; exact absurd e h2
+        · simp only [hmap, hunpad]
+          exact congrArg some (hout false)
+
+/-- `parse` of the exact decimal expansion of `x` prints back the same text — whatever the object held before. -/
+theorem edecParsePrint_canonical (neg0 : Bool) (x : Int) : edecParsePrint neg0 (intToDec x) = some (intToDec x) := by
+  have h := edecParsePrint_text neg0 (decide (x < 0)) false 0 x.natAbs
+  simp only [List.replicate_zero, List.nil_append, Bool.false_eq_true, if_false, decide_eq_true_eq] at h
+  have hx : (if x < 0 then -(x.natAbs : Int) else (x.natAbs : Int)) = x := by
+    split <;> omega
+  rw [hx] at h
+  unfold intToDec at h ⊢
+  exact h
 
 end UVerif.Text
